@@ -107,3 +107,13 @@ Theorem C28_stiffness_planestress_altered : forall o, E1 o <> 0 -> E2 o <> 0 -> 
     (forall i j, (i < 4)%nat -> (j < 4)%nat -> (i = 2 \/ j = 2 \/ (i = 3 /\ j <> 3) \/ (j = 3 /\ i <> 3))%nat -> entry 4 Da i j = 0).
 Proof. exact stiffA_planestress. Qed.
 Print Assumptions C28_stiffness_planestress_altered.
+
+(* ALTERED = UNALTERED in the hypotheses that prescribe no normal stress (all but plane stress and axisymmetrical generalised plane stress) *)
+Theorem C28_stiffness_altered_is_unaltered_elsewhere : forall o, E1 o <> 0 -> E2 o <> 0 -> E3 o <> 0 -> compliance_det o <> 0 ->
+  forall h c fa, doc_supported h c = true -> altered_component h = None -> stiffA_code (hcode h) (ccode c) = Some fa ->
+  exists fu, stiffU_code (hcode h) (ccode c) = Some fu /\
+    forall i j, (i < doc_ssize h)%nat -> (j < doc_ssize h)%nat ->
+      entry (doc_ssize h) (fa (E1 o) (E2 o) (E3 o) (n12 o) (n23 o) (n13 o) (G12 o) (G23 o) (G13 o)) i j =
+      entry (doc_ssize h) (fu (E1 o) (E2 o) (E3 o) (n12 o) (n23 o) (n13 o) (G12 o) (G23 o) (G13 o)) i j.
+Proof. exact stiffA_same_elsewhere. Qed.
+Print Assumptions C28_stiffness_altered_is_unaltered_elsewhere.
